@@ -28,6 +28,21 @@ func fromHexByte(c byte) (n byte) {
 	}
 }
 
+// toLowerASCII returns s with all ASCII uppercase letters replaced with their
+// lowercase counterparts.  Unlike [strings.ToLower], it leaves all other bytes
+// as they are, so that no non-ASCII character, like U+0130, can turn into an
+// ASCII letter of an ARPA suffix.
+func toLowerASCII(s string) (lowered string) {
+	b := []byte(s)
+	for i, c := range b {
+		if c >= 'A' && c <= 'Z' {
+			b[i] = c + ('a' - 'A')
+		}
+	}
+
+	return string(b)
+}
+
 // ARPA reverse address domains.
 const (
 	arpaV4Suffix = ".in-addr.arpa"
@@ -131,7 +146,7 @@ func IPFromReversedAddr(arpa string) (addr netip.Addr, err error) {
 	defer makeAddrError(&err, arpa, AddrKindARPA)
 
 	// TODO(a.garipov): Add stringutil.HasSuffixFold and remove this.
-	arpa = strings.ToLower(arpa)
+	arpa = toLowerASCII(arpa)
 	switch {
 	case strings.HasSuffix(arpa, arpaV4Suffix):
 		ipStr := arpa[:len(arpa)-len(arpaV4Suffix)]
@@ -368,7 +383,7 @@ func PrefixFromReversedAddr(arpa string) (p netip.Prefix, err error) {
 	defer makeAddrError(&err, arpa, AddrKindARPA)
 
 	// TODO(a.garipov): Add stringutil.HasSuffixFold and remove this.
-	arpa = strings.ToLower(arpa)
+	arpa = toLowerASCII(arpa)
 
 	switch {
 	case strings.HasSuffix(arpa, arpaV4Suffix[len("."):]):
@@ -432,7 +447,7 @@ func ExtractReversedAddr(domain string) (pref netip.Prefix, err error) {
 
 	defer makeAddrError(&err, domain, AddrKindARPA)
 
-	domain = strings.ToLower(domain)
+	domain = toLowerASCII(domain)
 
 	var parseSubnet func(arpa string) (pref netip.Prefix, err error)
 	var indexFirstLabel func(arpa string) (idx int)
